@@ -61,7 +61,9 @@ func NewFileNode(path string, digest Digest) (FileNode, error) {
 //
 // This reverses FileNode.String().
 func ParseFileNode(s string) (FileNode, error) {
-	split := strings.Split(s, "  ")
+	// The digest never contains a space, so split at the first separator only:
+	// a path may itself contain consecutive spaces.
+	split := strings.SplitN(s, "  ", 2)
 	if len(split) != 2 {
 		return nil, bufparse.NewParseError(
 			"file node",
